@@ -8,6 +8,7 @@ import OrasModel.Proofs.OciDelete
 import OrasModel.Proofs.OciTags
 import OrasModel.Proofs.OciCascade
 import OrasModel.Proofs.OciGc
+import OrasModel.Proofs.OciGcSound
 import OrasModel.Gen.Facts
 namespace Oras.Props.C09
 open Oras Oras.OciSt
@@ -325,5 +326,58 @@ example :
     subst he
     decide
   · exact GMem.ReachOf.step (ss := [1, 2]) GMem.ReachOf.refl (by simp [succOf, c, st]) (by simp)
+
+/-- **`GC` removes all garbage**: when `Store.GC` succeeds, every blob it leaves is live —
+    reachable from a tagged manifest, or from an index entry whose subject chain ends in a
+    live node.  With `c09_gc_keeps_tagged_closure` this brackets the kept set from both
+    sides. -/
+theorem c09_gc_removes_garbage (c : OciCfg) (fixed repeatPass saveAfter : Bool) (st : OciSt) (fuel : Nat)
+    (hok : (st.gc c fixed repeatPass saveAfter fuel).2 = .ok ()) :
+    ∀ b ∈ (st.gc c fixed repeatPass saveAfter fuel).1.blobs, GcLive c st b := by
+  intro b hb
+  unfold gc at hok hb
+  cases hg : gcIndex c fixed repeatPass st fuel with
+  | error err => rw [hg] at hok; cases hok
+  | ok s =>
+    rw [hg] at hb
+    simp only at hb
+    have hmem : b ∈ s.blobs.filter (fun b => s.graph.nodes b) := by
+      cases saveAfter with
+      | false => exact hb
+      | true =>
+        simp only [if_true] at hb
+        unfold autosave at hb
+        split at hb <;> exact hb
+    have hn : s.graph.nodes b = true := by simpa using (List.mem_filter.mp hmem).2
+    exact gcIndex_sound c fixed repeatPass st s fuel hg b hn
+
+/-- Non-vacuity: with a tagged manifest 9 over layers 1 and 2 and an orphan blob 3, `GC`
+    removes 3 (it is not live). -/
+example :
+    let c : OciCfg := ⟨fun n => if n = 9 then [1, 2] else [], fun n => n == 9, fun _ => none⟩
+    let st : OciSt := { OciSt.empty with blobs := [9, 3, 2, 1], refs := [(.tag 0, 9, 0), (.dig 9, 9, 0)] }
+    3 ∉ (st.gc c true true true 5).1.blobs := by
+  intro c st hmem
+  have hok : (st.gc c true true true 5).2 = .ok () := by
+    unfold gc gcIndex
+    simp [st, gcNamed, gcPass]
+  have hlive := c09_gc_removes_garbage c true true true st 5 hok 3 hmem
+  have hreach : ∀ x, GMem.ReachOf (succOf c st.blobs) 9 x → x = 9 ∨ x = 1 ∨ x = 2 := by
+    intro x hx
+    induction hx with
+    | refl => exact Or.inl rfl
+    | @step m k ss _ hs hk ih =>
+      rcases ih with h | h | h <;> subst h <;> simp [succOf, c, st] at hs <;> subst hs <;> simp at hk
+      rcases hk with h | h <;> simp [h]
+  cases hlive with
+  | tagged he hr =>
+    simp [st, gcNamed] at he
+    subst he
+    have := hreach 3 hr
+    simp at this
+  | referrer _ hc _ _ =>
+    cases hc with
+    | one h => simp [c] at h
+    | more h _ _ => simp [c] at h
 
 end Oras.Props.C09
